@@ -151,10 +151,12 @@ class LayerNormPlugin(PrimitiveLeafPlugin):
     def _patch_call(
         orig: Callable[..., jax.Array] | None,
     ) -> Callable[..., Any]:
+        _NO_STATE = object()
+
         def wrapped(
             self: eqx.nn.LayerNorm,
             x: jax.Array,
-            state: Any = None,
+            state: Any = _NO_STATE,
             *,
             key: jax.Array | None = None,
         ) -> Any:
@@ -173,7 +175,8 @@ class LayerNormPlugin(PrimitiveLeafPlugin):
             else:
                 bias = jnp.zeros(self.shape, dtype=dtype)
             out = LayerNormPlugin._PRIM.bind(x, scale, bias, epsilon=float(self.eps))
-            return out if state is None else (out, state)
+            # like the library: any explicitly passed state (also None) is returned
+            return out if state is _NO_STATE else (out, state)
 
         return wrapped
 
